@@ -323,9 +323,34 @@ func (p *pkgInfo) c09readerInvalidates() bool {
 	return res
 }
 
+// c10readerStrict reports whether readMember treats an exhausted or empty
+// member as an error: no `return io.EOF` in readMember, and io.ErrUnexpectedEOF
+// is produced for a short member.
+func (p *pkgInfo) c10readerStrict() bool {
+	fd := p.funcDecl("decompressor", "readMember")
+	returnsEOF, unexpected := false, false
+	ast.Inspect(fd.Body, func(n ast.Node) bool {
+		switch n := n.(type) {
+		case *ast.ReturnStmt:
+			for _, r := range n.Results {
+				if se, ok := r.(*ast.SelectorExpr); ok && lastSel(se.X) == "io" && se.Sel.Name == "EOF" {
+					returnsEOF = true
+				}
+			}
+		case *ast.SelectorExpr:
+			if lastSel(n.X) == "io" && n.Sel.Name == "ErrUnexpectedEOF" {
+				unexpected = true
+			}
+		}
+		return true
+	})
+	return !returnsEOF && unexpected
+}
+
 func init() {
 	emitters["31_bgzf_writer_skeleton"] = func(w *bytes.Buffer) {
 		bg := load("bgzf")
+		fmt.Fprintf(w, "(* decompressor.readMember never reports a clean io.EOF for a member that has started *)\nDefinition bgzf_reader_strict : bool := %v.\n", bg.c10readerStrict())
 		fmt.Fprintf(w, "(* decompressor.nextBlockAt invalidates its block when readMember fails *)\nDefinition bgzf_reader_invalidates : bool := %v.\n", bg.c09readerInvalidates())
 		bg.c09emit(w, "bgzf_wskel_emitter", "", "NewWriterLevel", true)
 		bg.c09emit(w, "bgzf_wskel_writeOK", "", "writeOK", false)
